@@ -6079,7 +6079,7 @@ class Query(object):
             for obj in objects: obj._delete_()
             return len(objects)
         translator = query._translator
-        sql_key = HashableDict(query._key, sql_command='DELETE')
+        sql_key = HashableDict(query._key, sql_command='DELETE', fixed_param_values=HashableDict(translator.fixed_param_values))
         database = query._database
         cache = database._get_cache()
         cache_entry = database._constructed_sql_cache.get(sql_key)
